@@ -233,3 +233,31 @@ Proof.
   - exact (leaf_preimage_unique g adj adj' order order' N N' S S' Y Y' P I J).
 Qed.
 Print Assumptions C16_leaf_correspondence_is_one_to_one.
+
+(* ------------------------------------------------------------------------------------------
+   "With distinct values and no pruning, raising min_value only removes the pixels at or below
+   the new threshold from every structure and drops the structures left empty."
+   grown E u u' : u' has the identifier and the children of u and its own pixels are those of u
+   followed by pixels of E.  Grow E f f' : every structure of f has its grown partner in f', and
+   every structure of f' is such a partner or owns pixels of E only. *)
+From Dendro Require Import Raise.
+
+Theorem C16_raising_the_threshold :
+  forall adj vals (m : option Z) (t : Z),
+    (forall v, above (Some t) v = true -> above m v = true) ->
+    NoDup (map snd (kept vals m)) ->
+    (forall a b, In a (map fst (kept vals m)) -> In b (map fst (kept vals m)) -> In b (adj a) -> In a (adj b)) ->
+    let lo := filter (fun pv => negb (t <? snd pv)) (order_of (kept vals m)) in
+    Grow lo (run adj np (order_of (kept vals (Some t)))) (run adj np (order_of (kept vals m))) /\
+    (forall pv, In pv lo -> snd pv <= t).
+Proof. exact compute_raise. Qed.
+Print Assumptions C16_raising_the_threshold.
+
+(* the pixels above the higher threshold are a prefix of the processing order *)
+Theorem C16_higher_threshold_is_a_prefix :
+  forall vals (m : option Z) (t : Z),
+    (forall v, above (Some t) v = true -> above m v = true) ->
+    NoDup (map snd (kept vals m)) ->
+    order_of (kept vals (Some t)) = filter (fun pv => t <? snd pv) (order_of (kept vals m)).
+Proof. exact order_of_raise. Qed.
+Print Assumptions C16_higher_threshold_is_a_prefix.
